@@ -14,6 +14,7 @@ pub mod c07;
 pub mod c11;
 pub mod c12;
 pub mod c13;
+pub mod c17;
 pub mod c18;
 pub mod c20;
 
@@ -27,6 +28,7 @@ pub fn registry() -> Vec<&'static macros::Entry> {
     v.extend(c11::registry());
     v.extend(c12::registry());
     v.extend(c13::registry());
+    v.extend(c17::registry());
     v.extend(c18::registry());
     v.extend(c20::registry());
     v
